@@ -92,6 +92,7 @@ impl Env for MiriEnv {
     fn checkpoint(&mut self, _what: &'static str) -> bool {
         true
     }
+    fn api_panic(&mut self, _api: &'static str) {}
     fn no_alloc_begin(&mut self) {}
     fn no_alloc_end(&mut self, _what: &'static str) {}
 }
